@@ -122,6 +122,7 @@ func (c *gengoCtx) Execute(ctx corecontext.Context, generators ...Generator) err
 			sumFile.Dir = c.sumFile.Dir
 		}
 
+		verifPoint("sum:before-save", sumFile.Dir)
 		return sumFile.Save()
 	}
 
@@ -142,12 +143,14 @@ func (c *gengoCtx) pkgChanged(pkgPath string) bool {
 
 func (c *gengoCtx) pkgExecute(pctx corecontext.Context, pkg string, generators ...Generator) (finalErr error) {
 	if !c.pkgChanged(pkg) {
+		verifPoint("pkg:cached", pkg)
 		_, l := logr.FromContext(pctx).Start(pctx, "debug: generate", slog.String("scope", pkg), slog.Bool("cached", true))
 		defer l.End()
 
 		return
 	}
 
+	verifPoint("pkg:start", pkg)
 	ctx, l := logr.FromContext(pctx).Start(pctx, "generate", slog.String("scope", pkg))
 	defer l.End()
 
@@ -223,6 +226,7 @@ func (c *gengoCtx) pkgExecute(pctx corecontext.Context, pkg string, generators .
 	for _, w := range gfs.Range {
 		gfile := w.(*genfile)
 
+		verifPoint("write:before", gfile.Filename(c.args))
 		if err := gfile.WriteToFile(pkgCtx, c.args); err != nil {
 			return err
 		}
@@ -232,12 +236,14 @@ func (c *gengoCtx) pkgExecute(pctx corecontext.Context, pkg string, generators .
 
 	if len(generatedFiles) > 0 {
 		for _, fullFilename := range generatedFiles {
+			verifPoint("remove:before", fullFilename)
 			if err := os.RemoveAll(fullFilename); err != nil {
 				return err
 			}
 		}
 	}
 
+	verifPoint("pkg:done", pkg)
 	return nil
 }
 
